@@ -41,6 +41,10 @@ DeliverMsg(q, m) == [k |-> "deliver", seq |-> q, m |-> m]
 AckMsg(q) == [k |-> "ack", seq |-> q, m |-> 0]
 NetTimer == 1
 
+(* scripted receivers may ignore even message values (handler leaves the state untouched and sends nothing) *)
+Ignores(sys, rcv, msg) == msg.k = "deliver" /\ "ignore_even" \in DOMAIN sys /\ sys.ignore_even[rcv + 1] /\ msg.m % 2 = 0
+IgnoresVal(sys, rcv, m) == "ignore_even" \in DOMAIN sys /\ sys.ignore_even[rcv + 1] /\ m % 2 = 0
+
 LastOf(L, src) == IF \E p \in L.last : p[1] = src THEN (CHOOSE p \in L.last : p[1] = src)[2] ELSE 0
 SetLast(L, src, q) == [L EXCEPT !.last = {p \in @ : p[1] # src} \cup {<<src, q>>}]
 NextFor(L, dst) == IF PerDst THEN (IF \E p \in L.next : p[1] = dst THEN (CHOOSE p \in L.next : p[1] = dst)[2] ELSE 1)
@@ -64,7 +68,7 @@ StartLocal(sys, i) ==
   SendScript([next |-> IF PerDst THEN {} ELSE 1, pending |-> {}, last |-> {}, handed |-> <<>>], sys.scripts[i + 1], <<>>)
 
 (* a handler result: [touch, L, sends (sequence of [dst, msg]), timers set] *)
-OnDeliver(L, src, msg) ==
+OnDeliver(L, src, msg, ignored) ==
   IF msg.k = "ack"
   THEN \* state.to_mut() is always taken: an Ack is a transition even when nothing is pending
        [touch |-> TRUE,
@@ -72,8 +76,10 @@ OnDeliver(L, src, msg) ==
         sends |-> <<>>]
   ELSE LET last == LastOf(L, src)
            ack == <<[dst |-> src, msg |-> AckMsg(msg.seq)]>>
+           \* a wrapped actor that ignores the message (no state change, no output) was still handed the message:
+           \* the sequencer advances (its successor is only accepted afterwards), nothing is recorded
            hand == [touch |-> TRUE,
-                    L |-> SetLast([L EXCEPT !.handed = Append(@, [src |-> src, m |-> msg.m])], src, msg.seq),
+                    L |-> SetLast(IF ignored THEN L ELSE [L EXCEPT !.handed = Append(@, [src |-> src, m |-> msg.m])], src, msg.seq),
                     sends |-> ack]
        IN IF msg.seq <= last THEN [touch |-> FALSE, L |-> L, sends |-> ack]
           ELSE IF ~PerDst THEN hand
@@ -109,7 +115,7 @@ OEnabled(sys, s) ==
 
 OIgnored(sys, s, a) ==
   CASE a.k = "deliver" ->
-         LET h == OnDeliver(s.actors[a.dst + 1], a.src, a.msg) IN ~h.touch /\ h.sends = <<>> /\ sys.network # "ordered"
+         LET h == OnDeliver(s.actors[a.dst + 1], a.src, a.msg, Ignores(sys, a.dst, a.msg)) IN ~h.touch /\ h.sends = <<>> /\ sys.network # "ordered"
     [] a.k = "timeout" -> s.actors[a.id + 1].pending = {}          \* only the timer would be re-armed
     [] OTHER -> FALSE
 
@@ -117,7 +123,7 @@ OApply(sys, s, a) ==
   CASE a.k = "drop" -> [s EXCEPT !.net = DropNet(@, Env(a.src, a.dst, a.msg))]
     [] a.k = "deliver" ->
          LET i == a.dst
-             h == OnDeliver(s.actors[i + 1], a.src, a.msg)
+             h == OnDeliver(s.actors[i + 1], a.src, a.msg, Ignores(sys, i, a.msg))
          IN [s EXCEPT !.net = SendAllFrom(DeliverNet(@, Env(a.src, a.dst, a.msg)), i, h.sends),
                       !.actors[i + 1] = h.L]
     [] a.k = "timeout" ->
@@ -138,17 +144,24 @@ HandedFrom(s, rcv, snd) ==
 IsPrefixOf(a, b) == Len(a) <= Len(b) /\ \A i \in 1..Len(a) : a[i] = b[i]
 
 (* handed over exactly once and in order: what was handed over is a prefix of what was sent to that peer *)
-PrefixOK(sys, s) == \A snd, rcv \in OIds(sys) : IsPrefixOf(HandedFrom(s, rcv, snd), SentTo(sys, snd, rcv))
+Recorded(sys, snd, rcv) == LET q == SentTo(sys, snd, rcv)
+                              RECURSIVE F(_) F(x) == IF x = <<>> THEN <<>> ELSE (IF IgnoresVal(sys, rcv, Head(x)) THEN <<>> ELSE <<Head(x)>>) \o F(Tail(x))
+                          IN F(q)
+PrefixOK(sys, s) == \A snd, rcv \in OIds(sys) : IsPrefixOf(HandedFrom(s, rcv, snd), Recorded(sys, snd, rcv))
 (* a message is never acknowledged (dropped from pending) before it was handed over *)
 AckedImpliesHanded(sys, s) ==
   \A snd, rcv \in OIds(sys) :
      \A i \in DOMAIN SentTo(sys, snd, rcv) :
         LET m == SentTo(sys, snd, rcv)[i] IN
-        (~\E p \in s.actors[snd + 1].pending : p.dst = rcv /\ p.m = m) => \E j \in DOMAIN HandedFrom(s, rcv, snd) : HandedFrom(s, rcv, snd)[j] = m
+        (~\E p \in s.actors[snd + 1].pending : p.dst = rcv /\ p.m = m) =>
+           /\ IgnoresVal(sys, rcv, m) \/ \E j \in DOMAIN HandedFrom(s, rcv, snd) : HandedFrom(s, rcv, snd)[j] = m
+           \* ... and the receiver's sequencer has moved past it (messages to one peer are numbered 1, 2, ... in send order),
+           \* which is what "handed over" means for a message the wrapped actor chose to ignore
+           /\ LastOf(s.actors[rcv + 1], snd) >= i
 (* once all retransmissions are acknowledged the two sequences are equal *)
 CompleteOK(sys, s) ==
   (\A i \in OIds(sys) : s.actors[i + 1].pending = {}) =>
-     \A snd, rcv \in OIds(sys) : HandedFrom(s, rcv, snd) = SentTo(sys, snd, rcv)
+     \A snd, rcv \in OIds(sys) : HandedFrom(s, rcv, snd) = Recorded(sys, snd, rcv)
 
 AbsLocal(j) ==
   [next |-> 0,    \* the sequencer state is not compared (its representation differs between the variants)
